@@ -37,6 +37,7 @@ type Obligation struct {
 	Trivial    bool
 	relAlt     func() *Obligation // weaker alternative tried when the obligation is not discharged
 	replayFn func(o *Obligation) *ReplayResult // custom replay (relational obligations)
+	autoVariant string // loop key when the variant of this decreases obligation was inferred
 	relAltFull bool
 }
 
@@ -71,6 +72,7 @@ type State struct {
 	frontier T                   // allocation frontier: objects that exist now have addresses 0 < r <= frontier
 	lits     map[*Region][]int16 // known constant bytes of array/literal regions (-1 unknown)
 	heads    map[int]*State      // state at the head of each open loop (by ordinal), for at(k, e)
+	entries  map[string]*State   // state on first arrival at each loop (before havoc), for inferred invariants
 	depth    int
 	dead     bool
 }
@@ -93,6 +95,12 @@ func (s *State) clone() *State {
 	}
 	for k, v := range s.lits {
 		n.lits[k] = v
+	}
+	if s.entries != nil {
+		n.entries = make(map[string]*State, len(s.entries))
+		for k, v := range s.entries {
+			n.entries[k] = v
+		}
 	}
 	if s.heads != nil {
 		n.heads = make(map[int]*State, len(s.heads))
